@@ -3,9 +3,11 @@
 #ifndef TETL_SET_STATIC_SET_HPP
 #define TETL_SET_STATIC_SET_HPP
 
+#include <etl/_algorithm/equal_range.hpp>
 #include <etl/_algorithm/lexicographical_compare.hpp>
 #include <etl/_algorithm/lower_bound.hpp>
 #include <etl/_algorithm/rotate.hpp>
+#include <etl/_algorithm/upper_bound.hpp>
 #include <etl/_contracts/check.hpp>
 #include <etl/_functional/less.hpp>
 #include <etl/_iterator/begin.hpp>
@@ -15,6 +17,7 @@
 #include <etl/_iterator/rend.hpp>
 #include <etl/_iterator/reverse_iterator.hpp>
 #include <etl/_iterator/size.hpp>
+#include <etl/_utility/pair.hpp>
 #include <etl/_vector/static_vector.hpp>
 
 namespace etl {
@@ -394,7 +397,7 @@ public:
     /// first element that is not less than key and another pointing to the
     /// first element greater than key. Alternatively, the first iterator may be
     /// obtained with lower_bound(), and the second with upper_bound().
-    [[nodiscard]] constexpr auto equal_range(key_type const& key) -> iterator
+    [[nodiscard]] constexpr auto equal_range(key_type const& key) -> pair<iterator, iterator>
     {
         return etl::equal_range(begin(), end(), key, key_compare{});
     }
@@ -404,19 +407,7 @@ public:
     /// first element that is not less than key and another pointing to the
     /// first element greater than key. Alternatively, the first iterator may be
     /// obtained with lower_bound(), and the second with upper_bound().
-    [[nodiscard]] constexpr auto equal_range(key_type const& key) const -> const_iterator
-    {
-        return etl::equal_range(begin(), end(), key, key_compare{});
-    }
-
-    /// \brief Returns a range containing all elements with the given key in the
-    /// container. The range is defined by two iterators, one pointing to the
-    /// first element that is not less than key and another pointing to the
-    /// first element greater than key. Alternatively, the first iterator may be
-    /// obtained with lower_bound(), and the second with upper_bound().
-    template <typename K>
-        requires(detail::is_transparent_v<key_compare>)
-    [[nodiscard]] constexpr auto equal_range(K const& key) -> iterator
+    [[nodiscard]] constexpr auto equal_range(key_type const& key) const -> pair<const_iterator, const_iterator>
     {
         return etl::equal_range(begin(), end(), key, key_compare{});
     }
@@ -428,7 +419,19 @@ public:
     /// obtained with lower_bound(), and the second with upper_bound().
     template <typename K>
         requires(detail::is_transparent_v<key_compare>)
-    [[nodiscard]] constexpr auto equal_range(K const& key) const -> const_iterator
+    [[nodiscard]] constexpr auto equal_range(K const& key) -> pair<iterator, iterator>
+    {
+        return etl::equal_range(begin(), end(), key, key_compare{});
+    }
+
+    /// \brief Returns a range containing all elements with the given key in the
+    /// container. The range is defined by two iterators, one pointing to the
+    /// first element that is not less than key and another pointing to the
+    /// first element greater than key. Alternatively, the first iterator may be
+    /// obtained with lower_bound(), and the second with upper_bound().
+    template <typename K>
+        requires(detail::is_transparent_v<key_compare>)
+    [[nodiscard]] constexpr auto equal_range(K const& key) const -> pair<const_iterator, const_iterator>
     {
         return etl::equal_range(begin(), end(), key, key_compare{});
     }
